@@ -61,6 +61,9 @@ structure Codec extends Decoder where
   law : ∀ x, dec (enc x) = some x
   /-- snappy's documented `MaxEncodedLen` -/
   grow : ∀ x, (enc x).length ≤ 32 + x.length + x.length / 6
+  /-- what the encoder emits declares a length a decoder can plausibly reach (snappy expands at
+      most 64 bytes per 3 input bytes) -/
+  declOk : ∀ x, declLen (enc x) ≤ 32 * (enc x).length + 64
 
 abbrev Checksum := Bytes → UInt32
 
@@ -71,6 +74,7 @@ def idCodec : Codec where
   enc := fun x => x
   law := fun _ => rfl
   grow := fun x => by omega
+  declOk := fun x => by omega
 
 def crc0 : Checksum := fun _ => 0
 
